@@ -3,7 +3,7 @@
 Real code: clematis.engine.orchestrator.parallel (_select_independent_batch,
 _run_agents_parallel_batch, _sort_turn_buffers), LogStager back-pressure protocol.
 The compute phase is either a stub that follows the documented dry-run contract
-(c10 driver_* obligations) or the real stage pipeline (harness/c10w.py).
+(driver_* obligations here) or the real stage pipeline (harness/c10w.py: real_pipeline).
 """
 from __future__ import annotations
 
